@@ -1,4 +1,502 @@
-//! C16 driver (filled in below).
-pub fn run(_seed: u64, _n: usize, _family: &str, _out: &str, _stats: Option<&str>) -> i32 {
-    2
+//! C16 driver: the real option layering (`Args` x `ConfigFile` -> `TrippyConfig::build_config`).
+//!
+//! Family `layer`: every option x {absent, file, CLI, both} x two values, over a random background of other
+//! options given in random layers.  The documented default is read from the `--help` text of the real
+//! `Args` (what `trip --help` prints), with `trippy-config-sample.toml` as the fallback where the help text
+//! states none.  Logged per case: the option, the canonical CLI / file / documented-default values and the
+//! effective value read back from the `TrippyConfig`; TLC evaluates the layering operator on them.
+//!
+//! Family `clirun`: random configurations including boundary and invalid values; every configuration the
+//! command-line layer accepts is projected onto the tracer builder exactly as `start_tracer` does and
+//! written as a scenario for the simulated-network harness (`vh sim --scenarios`), which runs it.
+
+use clap::{CommandFactory, Parser};
+use rand::rngs::StdRng;
+use rand::{Rng, SeedableRng};
+use serde_json::{json, Value};
+use std::collections::BTreeMap;
+use std::io::Write;
+use trippy_core::{MultipathStrategy, PortDirection, PrivilegeMode, Protocol};
+use trippy_tui::verif::{build_config, Args, ConfigFile, TrippyConfig};
+
+#[derive(Clone, Copy, PartialEq)]
+enum Kind {
+    Int,
+    /// zero, `auto` and absence are the same value
+    ZeroAuto,
+    /// an optional integer; the word is the documented name of absence
+    OptInt,
+    Dur,
+    Enum,
+    Str,
+    Flag,
+}
+
+struct Opt {
+    name: &'static str,
+    section: &'static str,
+    kind: Kind,
+    vals: &'static [&'static str],
+    /// other options that must have a given value for the values above to pass validation
+    needs: &'static [(&'static str, &'static str)],
+    /// options that may not be given together with this one
+    excl: &'static [&'static str],
+    get: fn(&TrippyConfig) -> String,
+}
+
+fn kebab(s: &str) -> String {
+    let mut out = String::new();
+    for (i, c) in s.chars().enumerate() {
+        if c.is_uppercase() && i > 0 {
+            out.push('-');
+        }
+        out.push(c.to_ascii_lowercase());
+    }
+    out
+}
+
+fn dur_us(s: &str) -> Option<u128> {
+    let s = s.trim();
+    let (num, unit) = s.split_at(s.find(|c: char| !c.is_ascii_digit())?);
+    let n: u128 = num.parse().ok()?;
+    Some(match unit.trim() {
+        "us" => n,
+        "ms" => n * 1_000,
+        "s" => n * 1_000_000,
+        "m" => n * 60_000_000,
+        _ => return None,
+    })
+}
+
+fn canon(kind: Kind, s: &str) -> String {
+    let s = s.trim();
+    match kind {
+        Kind::Int => s.parse::<u64>().map_or_else(|_| s.to_string(), |n| n.to_string()),
+        Kind::ZeroAuto => match s {
+            "0" | "auto" | "none" => "auto".into(),
+            _ => s.to_string(),
+        },
+        Kind::OptInt | Kind::Str => s.to_string(),
+        Kind::Dur => dur_us(s).map_or_else(|| s.to_string(), |u| u.to_string()),
+        Kind::Enum => s.to_ascii_lowercase(),
+        Kind::Flag => s.to_ascii_lowercase(),
+    }
+}
+
+fn toml_lit(kind: Kind, s: &str) -> String {
+    match kind {
+        Kind::Int | Kind::ZeroAuto | Kind::OptInt | Kind::Flag => s.to_string(),
+        _ => format!("{s:?}"),
+    }
+}
+
+fn us(d: std::time::Duration) -> String {
+    d.as_micros().to_string()
+}
+
+fn dbg<T: std::fmt::Debug>(x: T) -> String {
+    kebab(&format!("{x:?}"))
+}
+
+fn opts() -> Vec<Opt> {
+    vec![
+        Opt { name: "mode", section: "trippy", kind: Kind::Enum, vals: &["stream", "pretty", "json", "silent"], needs: &[], excl: &["dns-resolve-all"], get: |c| dbg(c.mode) },
+        Opt { name: "unprivileged", section: "trippy", kind: Kind::Flag, vals: &["true"], needs: &[], excl: &["multipath-strategy"], get: |c| (c.privilege_mode == PrivilegeMode::Unprivileged).to_string() },
+        Opt { name: "log-format", section: "trippy", kind: Kind::Enum, vals: &["compact", "json", "chrome"], needs: &[], excl: &[], get: |c| dbg(c.log_format) },
+        Opt { name: "log-filter", section: "trippy", kind: Kind::Str, vals: &["trippy=info", "x=debug"], needs: &[], excl: &[], get: |c| c.log_filter.clone() },
+        Opt { name: "log-span-events", section: "trippy", kind: Kind::Enum, vals: &["active", "full"], needs: &[], excl: &[], get: |c| dbg(c.log_span_events) },
+        Opt { name: "protocol", section: "strategy", kind: Kind::Enum, vals: &["udp", "tcp"], needs: &[], excl: &["dns-resolve-all"], get: |c| dbg(c.protocol) },
+        Opt { name: "addr-family", section: "strategy", kind: Kind::Enum, vals: &["ipv4", "ipv6", "ipv6-then-ipv4", "system"], needs: &[], excl: &[], get: |c| match format!("{:?}", c.addr_family).as_str() {
+            "Ipv4Only" => "ipv4".into(),
+            "Ipv6Only" => "ipv6".into(),
+            "Ipv6thenIpv4" => "ipv6-then-ipv4".into(),
+            "Ipv4thenIpv6" => "ipv4-then-ipv6".into(),
+            "System" => "system".into(),
+            o => o.to_string(),
+        } },
+        Opt { name: "target-port", section: "strategy", kind: Kind::Int, vals: &["443", "8080"], needs: &[("protocol", "tcp")], excl: &["source-port", "multipath-strategy", "dns-resolve-all"], get: |c| match c.port_direction {
+            PortDirection::FixedDest(p) | PortDirection::FixedBoth(_, p) => p.0.to_string(),
+            _ => "auto".into(),
+        } },
+        Opt { name: "source-port", section: "strategy", kind: Kind::OptInt, vals: &["5000", "6000"], needs: &[("protocol", "tcp")], excl: &["target-port", "multipath-strategy", "dns-resolve-all"], get: |c| match c.port_direction {
+            PortDirection::FixedSrc(p) | PortDirection::FixedBoth(p, _) => p.0.to_string(),
+            _ => "auto".into(),
+        } },
+        Opt { name: "source-address", section: "strategy", kind: Kind::Str, vals: &["10.1.2.3", "192.168.1.1"], needs: &[], excl: &["interface"], get: |c| c.source_addr.map_or_else(|| "auto".into(), |a| a.to_string()) },
+        Opt { name: "interface", section: "strategy", kind: Kind::Str, vals: &["eth0", "lo"], needs: &[], excl: &["source-address"], get: |c| c.interface.clone().unwrap_or_else(|| "auto".into()) },
+        Opt { name: "min-round-duration", section: "strategy", kind: Kind::Dur, vals: &["500ms", "250ms"], needs: &[], excl: &[], get: |c| us(c.min_round_duration) },
+        Opt { name: "max-round-duration", section: "strategy", kind: Kind::Dur, vals: &["2s", "3s"], needs: &[], excl: &[], get: |c| us(c.max_round_duration) },
+        Opt { name: "grace-duration", section: "strategy", kind: Kind::Dur, vals: &["50ms", "200ms"], needs: &[], excl: &[], get: |c| us(c.grace_duration) },
+        Opt { name: "initial-sequence", section: "strategy", kind: Kind::Int, vals: &["1000", "2000"], needs: &[], excl: &[], get: |c| c.initial_sequence.to_string() },
+        Opt { name: "multipath-strategy", section: "strategy", kind: Kind::Enum, vals: &["paris", "dublin"], needs: &[("protocol", "udp")], excl: &["unprivileged", "target-port", "source-port", "dns-resolve-all"], get: |c| dbg(c.multipath_strategy) },
+        Opt { name: "max-inflight", section: "strategy", kind: Kind::Int, vals: &["10", "30"], needs: &[], excl: &[], get: |c| c.max_inflight.to_string() },
+        Opt { name: "first-ttl", section: "strategy", kind: Kind::Int, vals: &["2", "3"], needs: &[], excl: &[], get: |c| c.first_ttl.to_string() },
+        Opt { name: "max-ttl", section: "strategy", kind: Kind::Int, vals: &["30", "40"], needs: &[], excl: &[], get: |c| c.max_ttl.to_string() },
+        Opt { name: "packet-size", section: "strategy", kind: Kind::Int, vals: &["100", "200"], needs: &[], excl: &[], get: |c| c.packet_size.to_string() },
+        Opt { name: "payload-pattern", section: "strategy", kind: Kind::Int, vals: &["1", "255"], needs: &[], excl: &[], get: |c| c.payload_pattern.to_string() },
+        Opt { name: "tos", section: "strategy", kind: Kind::Int, vals: &["8", "16"], needs: &[], excl: &[], get: |c| c.tos.to_string() },
+        Opt { name: "icmp-extensions", section: "strategy", kind: Kind::Flag, vals: &["true"], needs: &[], excl: &[], get: |c| (format!("{:?}", c.icmp_extension_parse_mode) == "Enabled").to_string() },
+        Opt { name: "read-timeout", section: "strategy", kind: Kind::Dur, vals: &["20ms", "50ms"], needs: &[], excl: &[], get: |c| us(c.read_timeout) },
+        Opt { name: "max-samples", section: "strategy", kind: Kind::Int, vals: &["10", "100"], needs: &[], excl: &[], get: |c| c.max_samples.to_string() },
+        Opt { name: "max-flows", section: "strategy", kind: Kind::Int, vals: &["10", "32"], needs: &[], excl: &[], get: |c| c.max_flows.to_string() },
+        Opt { name: "dns-resolve-method", section: "dns", kind: Kind::Enum, vals: &["resolv", "google", "cloudflare"], needs: &[], excl: &[], get: |c| dbg(c.dns_resolve_method) },
+        Opt { name: "dns-resolve-all", section: "dns", kind: Kind::Flag, vals: &["true"], needs: &[], excl: &["mode", "protocol", "target-port", "source-port", "multipath-strategy"], get: |c| c.dns_resolve_all.to_string() },
+        Opt { name: "dns-timeout", section: "dns", kind: Kind::Dur, vals: &["1s", "2s"], needs: &[], excl: &[], get: |c| us(c.dns_timeout) },
+        Opt { name: "dns-ttl", section: "dns", kind: Kind::Dur, vals: &["60s", "600s"], needs: &[], excl: &[], get: |c| us(c.dns_ttl) },
+        Opt { name: "dns-lookup-as-info", section: "dns", kind: Kind::Flag, vals: &["true"], needs: &[("dns-resolve-method", "resolv")], excl: &[], get: |c| c.dns_lookup_as_info.to_string() },
+        Opt { name: "tui-address-mode", section: "tui", kind: Kind::Enum, vals: &["ip", "both"], needs: &[], excl: &[], get: |c| dbg(c.tui_address_mode) },
+        Opt { name: "tui-as-mode", section: "tui", kind: Kind::Enum, vals: &["prefix", "country-code", "name"], needs: &[], excl: &[], get: |c| dbg(c.tui_as_mode) },
+        Opt { name: "tui-custom-columns", section: "tui", kind: Kind::Str, vals: &["hol", "holsr"], needs: &[], excl: &[], get: |c| c.tui_custom_columns.0.iter().map(ToString::to_string).collect() },
+        Opt { name: "tui-icmp-extension-mode", section: "tui", kind: Kind::Enum, vals: &["mpls", "full", "all"], needs: &[], excl: &[], get: |c| dbg(c.tui_icmp_extension_mode) },
+        Opt { name: "tui-geoip-mode", section: "tui", kind: Kind::Enum, vals: &["short", "long", "location"], needs: &[("geoip-mmdb-file", "a.mmdb")], excl: &[], get: |c| dbg(c.tui_geoip_mode) },
+        Opt { name: "tui-max-addrs", section: "tui", kind: Kind::ZeroAuto, vals: &["2", "5", "0"], needs: &[], excl: &[], get: |c| c.tui_max_addrs.map_or_else(|| "auto".into(), |n| n.to_string()) },
+        Opt { name: "tui-preserve-screen", section: "tui", kind: Kind::Flag, vals: &["true"], needs: &[], excl: &[], get: |c| c.tui_preserve_screen.to_string() },
+        Opt { name: "tui-refresh-rate", section: "tui", kind: Kind::Dur, vals: &["200ms", "500ms"], needs: &[], excl: &[], get: |c| us(c.tui_refresh_rate) },
+        Opt { name: "tui-privacy-max-ttl", section: "tui", kind: Kind::OptInt, vals: &["2", "5", "0"], needs: &[], excl: &[], get: |c| c.tui_privacy_max_ttl.map_or_else(|| "none".into(), |n| n.to_string()) },
+        Opt { name: "tui-locale", section: "tui", kind: Kind::Str, vals: &["fr", "de"], needs: &[], excl: &[], get: |c| c.tui_locale.clone().unwrap_or_else(|| "auto".into()) },
+        Opt { name: "tui-timezone", section: "tui", kind: Kind::Str, vals: &["Europe/Paris", "UTC"], needs: &[], excl: &[], get: |c| c.tui_timezone.map_or_else(|| "auto".into(), |t| t.to_string()) },
+        Opt { name: "geoip-mmdb-file", section: "tui", kind: Kind::Str, vals: &["a.mmdb", "b.mmdb"], needs: &[], excl: &[], get: |c| c.geoip_mmdb_file.clone().unwrap_or_else(|| "none".into()) },
+        Opt { name: "report-cycles", section: "report", kind: Kind::Int, vals: &["5", "20"], needs: &[], excl: &[], get: |c| c.report_cycles.to_string() },
+        // items of the two item-wise layered tables
+        Opt { name: "theme:bg-color", section: "theme-colors", kind: Kind::Enum, vals: &["blue", "red"], needs: &[], excl: &[], get: |c| dbg(c.tui_theme.bg).replace('-', "") },
+        Opt { name: "theme:text-color", section: "theme-colors", kind: Kind::Enum, vals: &["green", "yellow"], needs: &[], excl: &[], get: |c| dbg(c.tui_theme.text).replace('-', "") },
+        Opt { name: "binding:toggle-help", section: "bindings", kind: Kind::Str, vals: &["y", "ctrl+y"], needs: &[], excl: &[], get: |c| c.tui_bindings.toggle_help.to_string() },
+        Opt { name: "binding:toggle-freeze", section: "bindings", kind: Kind::Str, vals: &["u", "ctrl+u"], needs: &[], excl: &[], get: |c| c.tui_bindings.toggle_freeze.to_string() },
+    ]
+}
+
+/// Documented defaults: `[default: X]` in the help text of the real `Args`.
+fn help_defaults() -> BTreeMap<String, String> {
+    let mut out = BTreeMap::new();
+    let cmd = Args::command();
+    for a in cmd.get_arguments() {
+        let Some(long) = a.get_long() else { continue };
+        let help = a.get_long_help().or_else(|| a.get_help()).map(ToString::to_string).unwrap_or_default();
+        let flat: String = help.split_whitespace().collect::<Vec<_>>().join(" ");
+        if let Some(i) = flat.find("[default:") {
+            if let Some(j) = flat[i..].find(']') {
+                out.insert(long.to_string(), flat[i + 9..i + j].trim().to_string());
+            }
+        }
+    }
+    out
+}
+
+/// Fallback documentation: the sample configuration file shipped with the sources lists every option with
+/// its default value.
+fn sample_defaults() -> BTreeMap<(String, String), String> {
+    let mut out = BTreeMap::new();
+    let path = std::env::var("VT_SAMPLE_CONFIG").unwrap_or_else(|_| "/repo/trippy-config-sample.toml".into());
+    let Ok(txt) = std::fs::read_to_string(path) else { return out };
+    let Ok(v) = txt.parse::<toml::Value>() else { return out };
+    if let Some(t) = v.as_table() {
+        for (sec, tv) in t {
+            if let Some(tt) = tv.as_table() {
+                for (k, val) in tt {
+                    let s = match val {
+                        toml::Value::String(s) => s.clone(),
+                        toml::Value::Integer(i) => i.to_string(),
+                        toml::Value::Boolean(b) => b.to_string(),
+                        toml::Value::Float(x) => x.to_string(),
+                        _ => continue,
+                    };
+                    out.insert((sec.clone(), k.clone()), s);
+                }
+            }
+        }
+    }
+    out
+}
+
+#[derive(Clone, Copy, PartialEq, Debug)]
+enum Layer {
+    Cli,
+    File,
+}
+
+/// One assignment of values to options in layers -> (argv, toml text).
+fn render(assign: &[(&Opt, &str, Layer)]) -> (Vec<String>, String) {
+    let mut argv: Vec<String> = vec!["trip".into(), "example.com".into()];
+    let mut sections: BTreeMap<&str, Vec<String>> = BTreeMap::new();
+    let mut themes = Vec::new();
+    let mut binds = Vec::new();
+    for (o, v, l) in assign {
+        let key = o.name.split(':').next_back().unwrap_or(o.name);
+        match l {
+            Layer::Cli => {
+                if o.name.starts_with("theme:") {
+                    themes.push(format!("{key}={v}"));
+                } else if o.name.starts_with("binding:") {
+                    binds.push(format!("{key}={v}"));
+                } else if o.kind == Kind::Flag {
+                    if *v == "true" {
+                        argv.push(format!("--{}", o.name));
+                    }
+                } else {
+                    argv.push(format!("--{}", o.name));
+                    argv.push((*v).to_string());
+                }
+            }
+            Layer::File => {
+                let kind = if o.name.contains(':') { Kind::Str } else { o.kind };
+                sections.entry(o.section).or_default().push(format!("{key} = {}", toml_lit(kind, v)));
+            }
+        }
+    }
+    if !themes.is_empty() {
+        argv.push("--tui-theme-colors".into());
+        argv.push(themes.join(","));
+    }
+    if !binds.is_empty() {
+        argv.push("--tui-key-bindings".into());
+        argv.push(binds.join(","));
+    }
+    let mut toml = String::new();
+    for (sec, lines) in &sections {
+        toml.push_str(&format!("[{sec}]\n{}\n", lines.join("\n")));
+    }
+    (argv, toml)
+}
+
+fn build(argv: &[String], toml_txt: &str, pid: u16) -> Result<TrippyConfig, String> {
+    let args = Args::try_parse_from(argv).map_err(|e| format!("cli: {}", e.to_string().lines().next().unwrap_or("")))?;
+    let file: ConfigFile = toml::from_str(toml_txt).map_err(|e| format!("file: {}", e.to_string().lines().next().unwrap_or("")))?;
+    let r = std::panic::catch_unwind(std::panic::AssertUnwindSafe(|| build_config(args, file, true, false, pid)));
+    match r {
+        Ok(Ok(c)) => Ok(c),
+        Ok(Err(e)) => Err(format!("config: {}", e.to_string().lines().next().unwrap_or(""))),
+        Err(_) => Err("panic".into()),
+    }
+}
+
+fn find<'a>(all: &'a [Opt], name: &str) -> &'a Opt {
+    all.iter().find(|o| o.name == name).expect("option")
+}
+
+/// A random background of other options (each in a random layer) compatible with the fixed assignments.
+fn background<'a>(all: &'a [Opt], rng: &mut StdRng, main: &'a Opt, fixed: &mut Vec<(&'a Opt, &'static str, Layer)>, max: usize) {
+    let n = rng.random_range(0..=max);
+    for _ in 0..n {
+        let o = &all[rng.random_range(0..all.len())];
+        let taken = |fixed: &Vec<(&Opt, &str, Layer)>, name: &str| fixed.iter().any(|(f, _, _)| f.name == name);
+        if o.name == main.name || taken(fixed, o.name) || main.excl.contains(&o.name) || o.excl.contains(&main.name) {
+            continue;
+        }
+        if fixed.iter().any(|(f, _, _)| f.excl.contains(&o.name) || o.excl.contains(&f.name)) {
+            continue;
+        }
+        // its own requirements must be compatible with what is fixed already (and with the main option)
+        let mut ok = true;
+        let mut extra = Vec::new();
+        for (k, v) in o.needs {
+            if *k == main.name || main.excl.contains(k) {
+                ok = false;
+                break;
+            }
+            match fixed.iter().find(|(f, _, _)| f.name == *k) {
+                Some((_, fv, _)) if fv == v => {}
+                Some(_) => {
+                    ok = false;
+                    break;
+                }
+                None => extra.push((find(all, k), *v)),
+            }
+        }
+        if !ok {
+            continue;
+        }
+        for (eo, ev) in extra {
+            let l = if rng.random_bool(0.5) { Layer::Cli } else { Layer::File };
+            fixed.push((eo, ev, l));
+        }
+        let v = o.vals[rng.random_range(0..o.vals.len())];
+        let l = if rng.random_bool(0.5) { Layer::Cli } else { Layer::File };
+        // a flag in the file layer may also be false
+        fixed.push((o, v, l));
+    }
+}
+
+fn run_layer(seed: u64, n: usize, out: &str) -> (i32, Vec<Value>) {
+    let all = opts();
+    let help = help_defaults();
+    let sample = sample_defaults();
+    let mut rng = StdRng::seed_from_u64(seed ^ 0xc16);
+    let mut f = std::io::BufWriter::new(std::fs::File::create(out).expect("create out"));
+    let mut stats = Vec::new();
+    writeln!(f, "{}", json!({"e":"ccfg","options":all.len(),"documented":help.len()})).unwrap();
+    let mut case = 0usize;
+    // n = number of passes over the whole option table
+    for pass in 0..n {
+        for o in &all {
+            let key = o.name.split(':').next_back().unwrap_or(o.name);
+            let doc = if o.name.contains(':') { None } else { help.get(o.name).cloned() }
+                .or_else(|| sample.get(&(o.section.to_string(), key.to_string())).cloned());
+            let dflt = doc.as_ref().map_or_else(|| "?".to_string(), |d| canon(o.kind, d));
+            let a = o.vals[pass % o.vals.len()];
+            let b = o.vals[(pass + 1) % o.vals.len()];
+            // (cli value, file value): absent / file / CLI / both (different values) / both (same) ; a flag in
+            // the file layer may also be an explicit false
+            let mut cells: Vec<(Option<&str>, Option<&str>)> = vec![(None, None), (None, Some(a)), (Some(a), None), (Some(a), Some(b)), (Some(b), Some(a))];
+            if o.kind == Kind::Flag {
+                cells.push((None, Some("false")));
+                cells.push((Some("true"), Some("false")));
+            }
+            for (cv, fv) in cells {
+                let mut fixed: Vec<(&Opt, &'static str, Layer)> = Vec::new();
+                for (k, v) in o.needs {
+                    let l = if rng.random_bool(0.5) { Layer::Cli } else { Layer::File };
+                    fixed.push((find(&all, k), v, l));
+                }
+                background(&all, &mut rng, o, &mut fixed, 4);
+                let nbg = fixed.len();
+                let mut assign: Vec<(&Opt, &str, Layer)> = fixed.iter().map(|(o, v, l)| (*o, *v, *l)).collect();
+                if let Some(v) = cv {
+                    assign.push((o, v, Layer::Cli));
+                }
+                if let Some(v) = fv {
+                    assign.push((o, v, Layer::File));
+                }
+                let (argv, toml_txt) = render(&assign);
+                let cli_tok = cv.map_or_else(|| "-".to_string(), |v| canon(o.kind, v));
+                let file_tok = fv.map_or_else(|| "-".to_string(), |v| canon(o.kind, v));
+                case += 1;
+                match build(&argv, &toml_txt, 1) {
+                    Ok(cfg) => {
+                        let eff = canon(o.kind, &(o.get)(&cfg));
+                        writeln!(f, "{}", json!({"e":"layer","case":case,"opt":o.name,"cli":cli_tok,"file":file_tok,"dflt":dflt,"eff":eff,"bg":nbg,
+                            "argv":argv,"toml":toml_txt})).unwrap();
+                        stats.push(json!({"id":format!("layer-{seed}-{case}"),"cell":o.name,"shape":format!("{}{}", u8::from(cv.is_some()), u8::from(fv.is_some())),
+                            "delivered":{"genuine":1},"events":1}));
+                    }
+                    Err(msg) => {
+                        writeln!(f, "{}", json!({"e":"layer_rej","case":case,"opt":o.name,"cli":cli_tok,"file":file_tok,"msg":msg,"argv":argv,"toml":toml_txt})).unwrap();
+                    }
+                }
+            }
+        }
+    }
+    writeln!(f, "{}", json!({"e":"cend","cases":case})).unwrap();
+    f.flush().unwrap();
+    (0, stats)
+}
+
+/// Values the command-line layer should reject or that sit on a boundary (family `clirun`).
+fn edgy(name: &str) -> &'static [&'static str] {
+    match name {
+        "first-ttl" => &["0", "1", "2", "64", "254", "255"],
+        "max-ttl" => &["0", "1", "2", "254", "255"],
+        "max-inflight" => &["0", "1", "2", "255"],
+        "initial-sequence" => &["0", "1", "64511", "64512", "65535"],
+        "packet-size" => &["0", "27", "28", "47", "48", "1024", "1025", "65535"],
+        "read-timeout" => &["1ms", "10ms", "100ms", "1s"],
+        "grace-duration" => &["1ms", "10ms", "1s", "2s"],
+        "min-round-duration" => &["0ms", "10ms", "2s"],
+        "max-round-duration" => &["0ms", "10ms", "1s"],
+        "max-samples" => &["0", "1"],
+        "max-flows" => &["0", "1"],
+        "target-port" => &["0", "1", "80", "65535"],
+        "source-port" => &["0", "1023", "1024", "65535"],
+        "protocol" => &["icmp", "udp", "tcp"],
+        "multipath-strategy" => &["classic", "paris", "dublin"],
+        "addr-family" => &["ipv4", "ipv6", "ipv4-then-ipv6", "ipv6-then-ipv4", "system"],
+        "mode" => &["tui", "stream", "pretty", "json", "silent", "flows", "dot"],
+        "report-cycles" => &["0", "1", "3"],
+        "payload-pattern" => &["0", "255"],
+        "tos" => &["0", "255"],
+        _ => &[],
+    }
+}
+
+fn run_clirun(seed: u64, n: usize, out: &str, scenarios: Option<&str>) -> (i32, Vec<Value>) {
+    let all = opts();
+    let mut rng = StdRng::seed_from_u64(seed ^ 0xc16c);
+    let mut f = std::io::BufWriter::new(std::fs::File::create(out).expect("create out"));
+    let mut sf = scenarios.map(|p| std::io::BufWriter::new(std::fs::File::create(p).expect("create scenarios")));
+    let mut stats = Vec::new();
+    let names = ["first-ttl", "max-ttl", "max-inflight", "initial-sequence", "packet-size", "read-timeout", "grace-duration", "min-round-duration",
+        "max-round-duration", "max-samples", "max-flows", "target-port", "source-port", "protocol", "multipath-strategy", "addr-family", "mode",
+        "report-cycles", "payload-pattern", "tos", "unprivileged", "icmp-extensions"];
+    for i in 0..n {
+        let mut assign: Vec<(&Opt, &str, Layer)> = Vec::new();
+        let k = rng.random_range(1..=6);
+        for _ in 0..k {
+            let name = names[rng.random_range(0..names.len())];
+            if assign.iter().any(|(o, _, _)| o.name == name) {
+                continue;
+            }
+            let o = find(&all, name);
+            let e = edgy(name);
+            let v = if e.is_empty() { o.vals[0] } else { e[rng.random_range(0..e.len())] };
+            let l = if rng.random_bool(0.5) { Layer::Cli } else { Layer::File };
+            assign.push((o, v, l));
+        }
+        let (argv, toml_txt) = render(&assign);
+        let pid: u16 = *[1u16, 1234, 65535].get(rng.random_range(0..3)).unwrap();
+        match build(&argv, &toml_txt, pid) {
+            Ok(cfg) => {
+                // the projection onto the tracer builder, as trippy-tui's start_tracer does
+                let fam = match format!("{:?}", cfg.addr_family).as_str() {
+                    "Ipv6Only" | "Ipv6thenIpv4" => 6,
+                    _ => 4,
+                };
+                let (ports, sport, dport) = match cfg.port_direction {
+                    PortDirection::None => ("none", 0, 0),
+                    PortDirection::FixedSrc(s) => ("src", s.0, 0),
+                    PortDirection::FixedDest(d) => ("dest", 0, d.0),
+                    PortDirection::FixedBoth(s, d) => ("both", s.0, d.0),
+                };
+                let dist = rng.random_range(1..=6u8);
+                let id = format!("clirun-{seed}-{i}");
+                let sc = json!({
+                    "id": id, "fam": fam,
+                    "proto": match cfg.protocol { Protocol::Icmp => "icmp", Protocol::Udp => "udp", Protocol::Tcp => "tcp" },
+                    "strat": match cfg.multipath_strategy { MultipathStrategy::Classic => "classic", MultipathStrategy::Paris => "paris", MultipathStrategy::Dublin => "dublin" },
+                    "ports": ports, "sport": sport, "dport": dport,
+                    "privileged": cfg.privilege_mode == PrivilegeMode::Privileged,
+                    "ext": format!("{:?}", cfg.icmp_extension_parse_mode) == "Enabled",
+                    "first_ttl": cfg.first_ttl, "max_ttl": cfg.max_ttl, "max_inflight": cfg.max_inflight,
+                    "init_seq": cfg.initial_sequence, "packet_size": cfg.packet_size, "pattern": cfg.payload_pattern, "tos": cfg.tos,
+                    "trace_id": pid,
+                    "max_rounds": cfg.max_rounds.map_or(3, |r| r.min(3)),
+                    "min_round_us": cfg.min_round_duration.as_micros() as u64, "max_round_us": cfg.max_round_duration.as_micros() as u64,
+                    "grace_us": cfg.grace_duration.as_micros() as u64, "read_timeout_us": cfg.read_timeout.as_micros() as u64,
+                    "tcp_timeout_us": cfg.min_round_duration.as_micros() as u64,
+                    "max_samples": cfg.max_samples, "max_flows": cfg.max_flows(),
+                    "topo": {"paths": [{"hops": (1..dist).map(|k| json!({"addr": 100 + u16::from(k)})).collect::<Vec<_>>(), "dist": dist, "tcp": "synack"}]},
+                    "net": {"hop_delay_us": 1000},
+                    "seed": rng.random::<u32>(), "max_recv_calls": 200_000,
+                });
+                if let Some(sf) = sf.as_mut() {
+                    writeln!(sf, "{sc}").unwrap();
+                }
+                writeln!(f, "{}", json!({"e":"cli","case":i,"ok":true,"argv":argv,"toml":toml_txt,"sc":id})).unwrap();
+                stats.push(json!({"id":id,"cell":format!("{:?}-{:?}", cfg.protocol, cfg.multipath_strategy),"shape":ports,"delivered":{"genuine":1},"events":1}));
+            }
+            Err(msg) => {
+                writeln!(f, "{}", json!({"e":"cli","case":i,"ok":false,"msg":msg,"argv":argv,"toml":toml_txt})).unwrap();
+                stats.push(json!({"id":format!("clirun-{seed}-{i}"),"cell":"rejected","shape":msg.chars().take(40).collect::<String>(),"delivered":{"genuine":0},"events":1}));
+            }
+        }
+    }
+    f.flush().unwrap();
+    if let Some(mut sf) = sf {
+        sf.flush().unwrap();
+    }
+    (0, stats)
+}
+
+pub fn run(seed: u64, n: usize, family: &str, out: &str, stats_path: Option<&str>, scenarios: Option<&str>) -> i32 {
+    std::panic::set_hook(Box::new(|_| {}));
+    let (rc, stats) = match family {
+        "layer" => run_layer(seed, n, out),
+        "clirun" => run_clirun(seed, n, out, scenarios),
+        f => {
+            eprintln!("unknown family {f}");
+            return 2;
+        }
+    };
+    if let Some(p) = stats_path {
+        std::fs::write(p, serde_json::to_string(&stats).unwrap()).unwrap();
+    }
+    rc
 }
